@@ -165,6 +165,10 @@ def _gen_spec(rng, depth, profile, inline_ok):
     if k == "bar":
         size = rng.choice([1, 10, 100, 3.5])
         begin = rng.uniform(0, size)
+        if rng.random() < 0.3:
+            # the documented extremes: a bar that starts at 0 and / or is filled to its very end
+            begin = rng.choice([0, 0, begin])
+            return {"k": "bar", "size": size, "begin": begin, "end": size, "width": rng.choice([None, None, 1, 5, 20, 300])}
         return {"k": "bar", "size": size, "begin": begin, "end": rng.uniform(begin, size) if rng.random() < 0.8 else 0,
                 "width": rng.choice([None, None, 1, 5, 20, 300])}
     if k == "pbar":
